@@ -1,7 +1,7 @@
 import QiVerif.Driver.Util
-import QiVerif.Model.Service
+import QiVerif.Model.ServiceAdd
 namespace QiVerif.Driver.C16
-open QiVerif QiVerif.Driver QiVerif.Service
+open QiVerif QiVerif.Driver QiVerif.Service QiVerif.ServiceAdd
 
 def outStr : Out → String
   | .added _ => "added" | .retry => "retry" | .ok => "ok" | .err => "err"
@@ -15,17 +15,21 @@ def stateStr (s : Svc) : String :=
   let all := (s.objects.map (·.2) ++ s.dead).foldl (fun acc o => insertByUid o acc) []
   ";".intercalate (all.map (fun o => s!"u{o.uid}:inv={o.invoked},term={o.terminated},told={o.told.length}"))
 
-def run (s : Svc) (args : List String) : Svc × String :=
+def run (s : SvcW) (args : List String) : SvcW × String :=
+  let via (o : Op) : SvcW × String := let (s', out) := stepW s (.op o); (s', outStr out)
   match args with
   | ["svc.reset"] => ({}, "ok")
-  | ["svc.add", id] => let (s', o) := step s (.add id.toNat!); (s', outStr o)
-  | ["svc.remove", id] => let (s', o) := step s (.remove id.toNat!); (s', outStr o)
-  | ["svc.call", id] => let (s', o) := step s (.call id.toNat!); (s', outStr o)
-  | ["svc.term", id, arg] => let (s', o) := step s (.terminate id.toNat! arg.toNat!); (s', outStr o)
-  | ["svc.sub", id, h] => let (s', o) := step s (.subscribe id.toNat! h.toNat!); (s', outStr o)
+  | ["svc.add", id] => via (.add id.toNat!)
+  -- `Add` on the activated service, in its two critical sections: whatever is asked between them runs between them
+  | ["svc.addbegin", id] => let (s', o) := stepW s (.addBegin id.toNat!); (s', outStr o)
+  | ["svc.addend", id] => let (s', o) := stepW s (.addEnd id.toNat!); (s', outStr o)
+  | ["svc.remove", id] => via (.remove id.toNat!)
+  | ["svc.call", id] => via (.call id.toNat!)
+  | ["svc.term", id, arg] => via (.terminate id.toNat! arg.toNat!)
+  | ["svc.sub", id, h] => via (.subscribe id.toNat! h.toNat!)
   -- the same subscription made on the connection of the previous subscriber, to another signal
-  | ["svc.sub", id, h, _] => let (s', o) := step s (.subscribe id.toNat! h.toNat!); (s', outStr o)
-  | ["svc.state"] => (s, stateStr s)
+  | ["svc.sub", id, h, _] => via (.subscribe id.toNat! h.toNat!)
+  | ["svc.state"] => (s, stateStr s.svc)
   | ["svc.busy", _, _, _] => (s, "ok")   -- a removed object is unreachable (unreachable_after_remove), its hook ran once (terminate_once), the others are unaffected (others_unaffected)
   | ["svc.race", _, _] => ({}, "ok")   -- removal is one atomic action of the model (terminate_once)
   | _ => (s, "bad-op")
